@@ -42,10 +42,11 @@ Definition op_factorise (v : val) : val :=
   VL [ elist e_tuple2 prefs; elist (epair e_tuple2 eN) mult;
        eN (sumN (map snd mult)); eN (lenN (dedup prefs)) ].
 
-(* payload: (((order mult) ...) prefs ((ballot mult) ...) k) -> 0 | 1 *)
+(* payload: (((order mult) ...) prefs ((ballot mult) ...) k) -> (conv_check  all ballots trailing_ok) *)
 Definition op_conv_check (v : val) : val :=
-  ebool (conv_check (dlist (dpair d_tuple2 dN) (dnth 0 v)) (dlist d_tuple2 (dnth 1 v))
-                    (dlist (dpair d_tuple2 dN) (dnth 2 v)) (dN (dnth 3 v))).
+  VL [ ebool (conv_check (dlist (dpair d_tuple2 dN) (dnth 0 v)) (dlist d_tuple2 (dnth 1 v))
+                         (dlist (dpair d_tuple2 dN) (dnth 2 v)) (dN (dnth 3 v)));
+       ebool (forallb trailing_ok (dlist d_tuple2 (dnth 1 v))) ].
 
 Definition ops : optable :=
   [ ("c17.from_ordinal", op_from_ordinal); ("c17.factorise", op_factorise);
